@@ -664,14 +664,23 @@ impl Env {
                 },
                 Sev::Error(code) => Some(refcodec::error(*code % 8, "injected")),
                 Sev::ErrorLong(code, n) => {
-                    // n characters; for odd n a mixture of 1-, 2- and 3-byte characters so that byte offsets fall inside characters
+                    // n characters; for odd n a mixture of 1-, 2- and 3-byte characters so that byte offsets fall inside characters;
+                    // n = 4k+2: a Latin-1 text (not valid UTF-8), as old clients send it
                     let n = (*n as usize).min(2000);
-                    let msg: String = if n % 2 == 0 {
-                        "e".repeat(n)
+                    if n % 4 == 2 {
+                        let mut b = vec![0, 5, 0, (*code % 8) as u8];
+                        b.extend_from_slice(b"Datentr\xe4ger voll ");
+                        b.extend(std::iter::repeat(b'x').take(n));
+                        b.push(0);
+                        Some(b)
                     } else {
-                        (0..n).map(|i| if (i + n / 2) % 3 == 0 { '\u{e9}' } else if i % 5 == 0 { '\u{65e5}' } else { 'e' }).collect()
-                    };
-                    Some(refcodec::error(*code % 8, &msg))
+                        let msg: String = if n % 2 == 0 {
+                            "e".repeat(n)
+                        } else {
+                            (0..n).map(|i| if (i + n / 2) % 3 == 0 { '\u{e9}' } else if i % 5 == 0 { '\u{65e5}' } else { 'e' }).collect()
+                        };
+                        Some(refcodec::error(*code % 8, &msg))
+                    }
                 }
                 Sev::Garbage(g) => Some(g.clone()),
                 Sev::Oack => Some(vec![0, 6, b'b', b'l', b'k', b's', b'i', b'z', b'e', 0, b'8', 0]),
@@ -792,7 +801,8 @@ impl Socket for SimSocket {
                 tftpd::verif::advance(dt);
                 let t = tftpd::verif::virtual_now();
                 let orig_len = bytes.len();
-                let wire_error = matches!(refcodec::decode(&bytes), RDec::Ok(RPacket::Error { .. }));
+                // an ERROR on the wire is an ERROR whatever the encoding of its message (known code, full header)
+                let wire_error = bytes.len() >= 4 && bytes[0] == 0 && bytes[1] == 5 && bytes[2] == 0 && bytes[3] <= 7;
                 // exactly what a UDP socket read into a buffer of size + 4 bytes returns
                 bytes.truncate(size + 4);
                 // the protocol's accept rule, for the disk oracle
